@@ -202,6 +202,18 @@ def main(argv):
     if argv[0] == '--setup':
         from . import setup
         return setup.run()
+    if argv[0] == '--witness-selftest':
+        # every witness generator, run against the tree as it is: on a tree where the contracts hold none may report a failing input
+        from . import witness as W
+        if not W.build_driver():
+            print('driver build failed', W._built['log'])
+            return 2
+        bad = 0
+        for key, g in sorted(W.GENERATORS.items()):
+            r = g({}, tier)
+            print('%s.%s: %s' % (key[0], key[1], 'FOUND ' + str(r) if r.get('found') else 'none found (%s)' % r.get('note')))
+            bad += 1 if r.get('found') else 0
+        return 1 if bad else 0
     if argv[0] == '--unit':
         uid = argv[1]
         if '--show-extraction' in argv:
